@@ -13,6 +13,19 @@ NA = {
 PENDING = "check not built yet (planned, DESIGN.md section 6)"
 
 CHECKS = {
+    "C09": dict(
+        category="proof",
+        text="Internal coherence of parser and printers only. Deductive over a token-stream model: ExprParser.argument_list and "
+             "Parser.parameter_list close on ')' with no comma directly before it (a trailing comma is not silently "
+             "accepted), terminate, raise only RuntimeError/NotImplementedError; the expression printer methods produce "
+             "token-safe text (oracle W1-W3). Bounded (labelled): parse(gen_decl(parse(d))) == parse(d) over a declarator "
+             "grammar, C rendering turns references into pointers one for one, printer/parser stability on expressions. "
+             "One genuine defect found and fixed.",
+        design_ref="6/C09",
+        note="Agreement with a C++ compiler is NOT covered (needs g++ as oracle). Sub-parsers are used through trusted "
+             "contracts; precedence shape of ExprParser.expression and the declarator renderings are only in the bounded monitor.",
+        technique="contract-based deductive verification (AST-generated VCs over a token-stream model) + bounded round trip",
+    ),
     "C08": dict(
         category="proof",
         text="Leaf mechanism proved, global claim bounded. Deductive: util.un_camel (loop invariant over folds) -- no upper-case "
